@@ -138,13 +138,22 @@ def snapshot(samples, history=None):
     return out
 
 
-def one(sampler, route, amb, seed, nsn="numpy", n_final=None):
+def make_generator(gkind, seed):
+    """the kinds of NumPy generator a user may hand in: the modern default, one with another bit generator, the legacy RandomState"""
+    if gkind == "RandomState":
+        return np.random.RandomState(seed)
+    if gkind == "MT19937":
+        return np.random.Generator(np.random.MT19937(seed))
+    return np.random.default_rng(seed)
+
+
+def one(sampler, route, amb, seed, nsn="numpy", n_final=None, gkind="default_rng"):
     """one run with explicit sources derived from `seed` only and ambient entropy from `amb`"""
     from aspire.samples import Samples
 
     dims = 2
     target = smcrun.Target(dims)
-    g = np.random.default_rng(seed)
+    g = make_generator(gkind, seed)
     with ambient(amb):
         if route == "top":
             a = al.make_aspire(target, dims=dims, flow_seed=seed % 1000, xp_name=nsn)
@@ -194,12 +203,14 @@ def check_pairs(chk, r, n_seeds, pred):
             if sampler == "minipcn" and nsn == "jax":
                 nsn = "torch"      # MiniPCN + jax + identity preconditioning crashes in IdentityTransform (numpy z): noted in DESIGN
             n_final = None if i % 2 else 20
-            case = {"level": "pair", "sampler": sampler, "route": route, "seed": seed, "ns": nsn, "n_final_samples": n_final}
+            gkind = ("default_rng", "RandomState", "MT19937")[(i + len(route)) % 3] if sampler == "smc" else "default_rng"
+            chk.count(f"generator:{gkind}")
+            case = {"level": "pair", "sampler": sampler, "route": route, "seed": seed, "ns": nsn, "n_final_samples": n_final, "generator": gkind}
             chk.count(f"{sampler}/{route}")
             chk.case(case if chk.evaluations < 12 else None, json.dumps(case))
             try:
-                a, used_a, kern_a, ga = one(sampler, route, 1, seed, nsn, n_final)
-                b, used_b, kern_b, gb = one(sampler, route, 2, seed, nsn, n_final)
+                a, used_a, kern_a, ga = one(sampler, route, 1, seed, nsn, n_final, gkind)
+                b, used_b, kern_b, gb = one(sampler, route, 2, seed, nsn, n_final, gkind)
             except Exception as exc:   # noqa
                 chk.fail("run total", case, repr(exc)[:300], {"clause": "raise", "sampler": sampler, "route": route})
                 continue
